@@ -84,11 +84,10 @@ theorem produced_mkJobs_plain (coll : Nat → Nat → Option Result) (flat : Lis
 
 theorem emitted_workerItems (b : Bundle) (jobs : List Job) (hc : ∀ j ∈ jobs, j.out ≠ .crash) :
     emitted (workerItems b jobs) = produced jobs := by
-  have hl := nYield_le_length jobs
+  unfold emitted workerItems
   by_cases hb : b = .none
-  · subst hb; exact emitted_worker_none jobs none jobs hc hl
-  · have := emitted_worker_bundle b hb jobs [] none jobs hc hl
-    simpa [workerItems] using this
+  · subst hb; rw [flat_worker_none none jobs hc, producedC_map_r]
+  · rw [flat_worker_bundle b hb [] none jobs hc]; simp [producedC_map_r]
 
 theorem flattenMatches_append (a b : List (Nat × List Nat)) :
     flattenMatches (a ++ b) = flattenMatches a ++ flattenMatches b := by
@@ -157,7 +156,7 @@ theorem pipeline_delivers (b : Bundle) (oc : Nat → Nat → Outcome) (ms : List
     · intro is his
       simp only [List.mem_map] at his
       obtain ⟨c, hcm, rfl⟩ := his
-      exact worker_no_crash_item b _ [] none _ (hjobs c hcm) (nYield_le_length _)
+      exact worker_no_crash_item b [] none _ (hjobs c hcm)
 
 /-! ### the parent's yield as a multiset -/
 
@@ -448,5 +447,84 @@ theorem outcome_nobad (skip : Bool) (coll : Nat → Nat → Option Result) :
 
 theorem readable_nobad (pts : Nat → List Pt) : readable (fun _ => false) pts = pts := by
   funext i; simp [readable]
+
+/-! ### `match` lists the primaries in order -/
+
+theorem mem_flattenMatches_iff (l : List (Nat × List Nat)) (x : Nat × Nat) :
+    x ∈ flattenMatches l ↔ ∃ m ∈ l, m.1 = x.1 ∧ x.2 ∈ m.2 := by
+  unfold flattenMatches
+  simp only [List.mem_flatMap, List.mem_map]
+  constructor
+  · rintro ⟨m, hm, s, hs, rfl⟩; exact ⟨m, hm, rfl, hs⟩
+  · rintro ⟨m, hm, h1, h2⟩; exact ⟨m, hm, x.2, h2, by rw [h1]⟩
+
+theorem sorted_flattenMatches (l : List (Nat × List Nat)) (h : (l.map (·.1)).Pairwise (· < ·)) :
+    ((flattenMatches l).map (·.1)).Pairwise (· ≤ ·) := by
+  induction l with
+  | nil => simp [flattenMatches]
+  | cons m l ih =>
+    simp only [List.map_cons, List.pairwise_cons] at h
+    rw [show flattenMatches (m :: l) = flattenMatches [m] ++ flattenMatches l from
+      flattenMatches_append [m] l, List.map_append, List.pairwise_append]
+    refine ⟨?_, ih h.2, ?_⟩
+    · rw [List.pairwise_map]
+      apply List.pairwise_of_forall_mem_list
+      intro a ha b hb
+      obtain ⟨m1, hm1, e1, _⟩ := (mem_flattenMatches_iff [m] a).mp ha
+      obtain ⟨m2, hm2, e2, _⟩ := (mem_flattenMatches_iff [m] b).mp hb
+      simp only [List.mem_singleton] at hm1 hm2
+      subst hm1 hm2
+      omega
+    · intro a ha b hb
+      simp only [List.mem_map] at ha hb
+      obtain ⟨x, hx, rfl⟩ := ha
+      obtain ⟨y, hy, rfl⟩ := hb
+      obtain ⟨m1, hm1, e1, _⟩ := (mem_flattenMatches_iff [m] x).mp hx
+      obtain ⟨m2, hm2, e2, _⟩ := (mem_flattenMatches_iff l y).mp hy
+      simp only [List.mem_singleton] at hm1
+      subst hm1
+      have := h.1 m2.1 (List.mem_map.mpr ⟨m2, hm2, rfl⟩)
+      omega
+
+theorem sorted_matchFiles {files1 files2 : List (Int × Int)} {start end_ : Option Int} {mi : Int}
+    {ms : List (Nat × List Nat)} (hm : matchFiles files1 files2 start end_ mi = .ok ms) :
+    (ms.map (·.1)).Pairwise (· < ·) := by
+  unfold matchFiles at hm
+  by_cases h1 : findIdx (wlo start mi) (whi end_ mi) files1 = []
+  · rw [matchPeriod_error (Or.inl h1)] at hm; cases hm
+  by_cases h2 : findIdx (wlo start mi) (whi end_ mi) files2 = []
+  · rw [matchPeriod_error (Or.inr h2)] at hm; cases hm
+  rw [matchPeriod_ok h1 h2] at hm
+  cases hm
+  refine List.Pairwise.sublist ((List.filter_sublist).map _) ?_
+  rw [List.map_map]
+  have : ((fun m : Nat × List Nat => m.1) ∘ fun i =>
+      (i, (findIdx (wlo start mi) (whi end_ mi) files2).filter (partner files1 files2 mi i))) = id := by
+    funext i; rfl
+  rw [this, List.map_id]
+  unfold findIdx
+  exact (List.pairwise_lt_range).filter _
+
+theorem sublist_of_mem_splitSizes {α : Type} (ss : List Nat) (l : List α) {c : List α}
+    (hc : c ∈ splitSizes ss l) : c.Sublist l := by
+  induction ss generalizing l with
+  | nil => simp [splitSizes] at hc
+  | cons s ss ih =>
+    simp only [splitSizes, List.mem_cons] at hc
+    rcases hc with rfl | hc
+    · exact List.take_sublist _ _
+    · exact (ih _ hc).trans (List.drop_sublist _ _)
+
+theorem sorted_chunk {files1 files2 : List (Int × Int)} {start end_ : Option Int} {mi : Int}
+    {ms : List (Nat × List Nat)} (hm : matchFiles files1 files2 start end_ mi = .ok ms)
+    {k : Nat} {cs : List (List (Nat × List Nat))} (hk : chunks k ms = some cs)
+    {c : List (Nat × List Nat)} (hc : c ∈ cs) :
+    ((flattenMatches c).map (·.1)).Pairwise (· ≤ ·) := by
+  unfold chunks at hk
+  split at hk
+  · cases hk
+  · cases hk
+    have hsub := sublist_of_mem_splitSizes _ _ hc
+    exact sorted_flattenMatches c ((sorted_matchFiles hm).sublist (hsub.map _))
 
 end CFiles
